@@ -10,7 +10,7 @@ EXTENDS DirLock, TLAPS
 ASSUME NoneNotOpener == "none" \notin Openers
 ASSUME NoBug == Bug = {}      \* the intended design (the Bug switch reproduces the pinned tree)
 
-TypeOK == /\ st \in [Openers -> {"closed", "names", "files", "index", "open"}]
+TypeOK == /\ st \in [Openers -> {"closed", "names", "files", "index", "open", "closing"}]
           /\ holder \in Openers \cup {"none"}
           /\ corrupt \in Kinds
           /\ steps \in Nat
@@ -30,8 +30,8 @@ LEMMA NextInv == IndInv /\ [Next]_vars => IndInv'
   BY <1>1, NoneNotOpener DEF TryOpen, Tick, IndInv, TypeOK, Excl, Held
 <1>2. ASSUME NEW o \in Openers, Load(o) PROVE IndInv'
   BY <1>2, NoneNotOpener, NoBug DEF Load, Leaks, NextPhase, Tick, IndInv, TypeOK, Excl, Held
-<1>3. ASSUME NEW o \in Openers, Close(o) PROVE IndInv'
-  BY <1>3, NoneNotOpener DEF Close, Tick, IndInv, TypeOK, Excl, Held
+<1>3. ASSUME NEW o \in Openers, CloseFiles(o) \/ CloseUnlock(o) PROVE IndInv'
+  BY <1>3, NoneNotOpener, NoBug DEF CloseFiles, CloseUnlock, Tick, IndInv, TypeOK, Excl, Held
 <1>4. ASSUME Flip PROVE IndInv'
   BY <1>4, NoneNotOpener DEF Flip, Kinds, Tick, IndInv, TypeOK, Excl, Held
 <1>5. ASSUME UNCHANGED vars PROVE IndInv'
